@@ -48,6 +48,17 @@ def _call(drv, model, kind, arg):
                                           processes=2 if kind == "fva_parallel" else 1,
                                           pfba_factor=1.5 if arg == 3 else None)
         return _frame(df, ["minimum", "maximum"])
+    if kind == "find_blocked_bad_list":
+        fa.find_blocked_reactions(model, reaction_list=[r.id for r in rx[:1]] + ["no_such_reaction"], open_exchanges=True,
+                                  processes=1)
+        return [0]
+    if kind == "fva_bad_list":
+        fa.flux_variability_analysis(model, reaction_list=[r.id for r in rx[:1]] + ["no_such_reaction"], processes=1,
+                                     loopless=bool(arg % 2))
+        return [0]
+    if kind == "deletion_bad_list":
+        fa.single_reaction_deletion(model, [r.id for r in rx[:1]] + ["no_such_reaction"], processes=1)
+        return [0]
     if kind == "find_blocked":
         return sorted(hash(x) % 100000 for x in fa.find_blocked_reactions(model, open_exchanges=bool(arg % 2), processes=1))
     if kind in ("essential_genes", "find_essential_genes_parallel"):
